@@ -940,6 +940,7 @@ type POut struct {
 	Chunks []*V   `json:"chunks,omitempty"` // Stream / Transform: the chunks received before EOF / the error item
 	Msg    string `json:"msg,omitempty"`
 	calls  map[int][]string
+	raw    []any // what the caller was handed: the value (Invoke, Collect) or the chunks (Stream, Transform)
 }
 
 func (o POut) ok() bool { return o.Class == "ok" }
@@ -1032,6 +1033,7 @@ func streamOut[O any](sr *schema.StreamReader[O], err error) POut {
 	o := POut{}
 	for _, c := range cs {
 		o.Chunks = append(o.Chunks, fromGo(any(c)))
+		o.raw = append(o.raw, any(c))
 	}
 	if err != nil {
 		o.Class, o.Msg = "err-item", err.Error()
@@ -1051,7 +1053,7 @@ func valueOut(v any, err error) POut {
 	if err != nil {
 		return POut{Class: "err-call", Msg: err.Error()}
 	}
-	return POut{Class: "ok", Val: fromGo(v)}
+	return POut{Class: "ok", Val: fromGo(v), raw: []any{v}}
 }
 
 // the caller's chunks, in a slice with spare capacity (the stream over it is array-backed)
